@@ -196,6 +196,38 @@ namespace nmtools::meta
     constexpr inline auto is_column_major_offset_v = is_column_major_offset<T>::value;
 } // namespace nmtools::meta
 
+
+#ifdef NMTOOLS_VERIF
+namespace nmtools::array::verif
+{
+    // report element accesses that leave the extents or the buffer (hook H5)
+    template <typename indices_t, typename shape_t>
+    constexpr auto check_indices([[maybe_unused]] const indices_t& indices, [[maybe_unused]] const shape_t& shape)
+    {
+        if constexpr (meta::is_index_array_v<indices_t> && meta::is_index_array_v<shape_t>
+            && !meta::is_constant_index_array_v<indices_t>)
+        {
+            constexpr auto N = meta::len_v<indices_t>;
+            constexpr auto M = meta::len_v<shape_t>;
+            if constexpr ((N>0) && (M>0)) {
+                if constexpr (N==M) {
+                    meta::template_for<N>([&](auto i){
+                        NMTOOLS_VERIF_CHECK( ((nm_size_t)at(indices,i) >= (nm_size_t)at(shape,i)), 7, at(indices,i), at(shape,i) );
+                    });
+                }
+            } else if constexpr (!meta::is_tuple_v<indices_t> && !meta::is_tuple_v<shape_t>) {
+                auto n = (nm_size_t)len(indices);
+                auto m = (nm_size_t)len(shape);
+                NMTOOLS_VERIF_CHECK( (n != m), 7, n, m );
+                for (nm_size_t i=0; (i<n) && (i<m); i++) {
+                    NMTOOLS_VERIF_CHECK( ((nm_size_t)at(indices,i) >= (nm_size_t)at(shape,i)), 7, at(indices,i), at(shape,i) );
+                }
+            }
+        }
+    }
+} // namespace nmtools::array::verif
+#endif // NMTOOLS_VERIF
+
 namespace nmtools::array
 {
 
@@ -319,12 +351,26 @@ namespace nmtools::array
         template <typename...size_types>
         constexpr decltype(auto) operator()(const size_types&...indices)
         {
+            #ifdef NMTOOLS_VERIF
+            {
+                verif::check_indices(index::pack_indices(indices...),shape());
+                auto verif_offset = offset(indices...);
+                NMTOOLS_VERIF_CHECK( ((nm_size_t)verif_offset >= (nm_size_t)len(self()->data_)), 8, verif_offset, len(self()->data_) );
+            }
+            #endif // NMTOOLS_VERIF
             return nmtools::at(self()->data_,offset(indices...));
         } // operator()
 
         template <typename...size_types>
         constexpr decltype(auto) operator()(const size_types&...indices) const
         {
+            #ifdef NMTOOLS_VERIF
+            {
+                verif::check_indices(index::pack_indices(indices...),shape());
+                auto verif_offset = offset(indices...);
+                NMTOOLS_VERIF_CHECK( ((nm_size_t)verif_offset >= (nm_size_t)len(self()->data_)), 8, verif_offset, len(self()->data_) );
+            }
+            #endif // NMTOOLS_VERIF
             return nmtools::at(self()->data_,offset(indices...));
         } // operator()
     }; // base_ndarray_t
